@@ -32,8 +32,31 @@ C_Search(e) == e.op \in {"BinarySearch", "BinarySearchFunc"} =>
                  /\ e.res = e.s
 \* "ShuffleRand is a deterministic function of the supplied generator"
 C_ShuffleDet(e) == e.op = "ShuffleRand" => e.res2 = e.res
+\* Thousands of elements (op BigSort): input element i (0 <= i < n) has key ((i*a+b) mod m) + 1; the Func variants sort key*d+i
+\* with a key-only less.  The result is logged losslessly as runs (see the driver); a correct result has one run per key.
+BKey(e, i) == ((i * e.a + e.b) % e.m) + 1
+BIdx(e, k) == {i \in 0..e.n - 1 : BKey(e, i) = k}
+BKeys(e) == {k \in 1..e.m : BIdx(e, k) # {}}
+BDesc(e) == e.variant \in {"SortDesc", "SortDescFunc", "SortStableDescFunc"}
+RECURSIVE SumS(_)
+SumS(S) == IF S = {} THEN 0 ELSE LET x == CHOOSE y \in S : TRUE IN x + SumS(S \ {x})
+SetMin(S) == CHOOSE x \in S : \A y \in S : x <= y
+\* the keys in the order asked for
+RECURSIVE KeySeq(_, _)
+KeySeq(S, desc) == IF S = {} THEN <<>> ELSE
+   LET k == IF desc THEN CHOOSE x \in S : \A y \in S : x >= y ELSE SetMin(S) IN <<k>> \o KeySeq(S \ {k}, desc)
+C_Big(e) == e.op = "BigSort" =>
+   LET ks == KeySeq(BKeys(e), BDesc(e)) IN
+   /\ e.len = e.n /\ Len(e.runs) = Len(ks)
+   /\ \A j \in 1..Len(ks) :
+        LET k == ks[j]  I == BIdx(e, k)  r == e.runs[j] IN
+        CASE e.variant \in {"Sort", "SortDesc"} -> r = <<k, Cardinality(I)>>
+          [] e.variant \in {"SortStableFunc", "SortStableDescFunc"} ->
+               \* the indices of one key form an arithmetic progression (a is invertible modulo m): first element, step, count
+               r = <<k * e.d + SetMin(I), IF Cardinality(I) = 1 THEN 0 ELSE e.m, Cardinality(I)>>
+          [] OTHER -> r[1] = k /\ r[2] = Cardinality(I) /\ r[3] = SumS(I)
 C_NoPanic(e) == e.panic = ""
-All(e) == C_Perm(e) /\ C_Order(e) /\ C_Stable(e) /\ C_Search(e) /\ C_ShuffleDet(e) /\ C_NoPanic(e)
+All(e) == C_Big(e) /\ C_Perm(e) /\ C_Order(e) /\ C_Stable(e) /\ C_Search(e) /\ C_ShuffleDet(e) /\ C_NoPanic(e)
 TInit == l = 1
 Step == l <= Len(Trace) /\ l' = l + 1 /\ (Gate => All(Ev))
 TSpec == TInit /\ [][Step]_vars
@@ -45,6 +68,7 @@ I_Order == Chk => C_Order(Obs)
 I_Stable == Chk => C_Stable(Obs)
 I_Search == Chk => C_Search(Obs)
 I_ShuffleDet == Chk => C_ShuffleDet(Obs)
+I_Big == Chk => C_Big(Obs)
 Track == TrackL(l)
 Accepted == AcceptedP
 ====
